@@ -302,6 +302,16 @@ def structural(ctx):
         same = list(s1) == list(s2) and type(s1) is type(s2)
         if list(s1) != list(s2) and not (r[0] == 'exc' and r[1] == 'InitialisationError'):
             ctx.violation('differing-spans-accepted', f'submodels with spans {s1} / {s2}: expected InitialisationError, got {r}', {'kind': 'spans', 'k': k})
+    # identical spans of every supported type are accepted (and the linker solves)
+    from . import spans as _spans
+    for k, spec in enumerate(_spans.catalogue(5)):
+        if not ctx.mine(k):
+            continue
+        ctx.evaluation(('same-spans', spec.kind), nontrivial=True)
+        ctx.count('structural_checks')
+        r = call(lambda: fsic.BaseLinker({'x': models[1](spec.make()), 'y': models[0](spec.make()), 'z': models[1](spec.make())}).solve(failures='ignore', max_iter=3))
+        if r[0] != 'ret' or list(r[1][1]) != [1, 2, 3, 4]:
+            ctx.violation('identical-spans-rejected', f'three submodels with identical {spec.kind} spans: expected a linker that solves positions 1..4, got {r}', {'kind': 'same-spans', 'span_kind': spec.kind})
     # unknown submodel id
     for k, bad in enumerate(['zz', 0, None.__class__, ('a',)]):
         if not ctx.mine(k):
